@@ -1350,21 +1350,14 @@ fn copy_prop_reverse(
     // when we decide to eliminate (1) and (2), i.e., both `b` and `a` end up
     // being replaced by `x`, (3) will end up becoming `x <- x`. We need to
     // clean these up.
+    // Only a copy of a memory range onto itself is redundant. A copy between two different
+    // parts of the same symbol (e.g., `a[2] = a[3]`, once `a` and its copy got merged) must stay.
     for (_, inst) in function.instruction_iter(context) {
-        let Some((dst_ptr, src_ptr, _byte_len)) = deconstruct_memcpy(context, inst) else {
+        let Some((dst_ptr, src_ptr, byte_len)) = deconstruct_memcpy(context, inst) else {
             continue;
         };
 
-        let dst_sym = match get_referred_symbols(context, dst_ptr) {
-            ReferredSymbols::Complete(syms) if syms.len() == 1 => syms.into_iter().next().unwrap(),
-            _ => continue,
-        };
-        let src_sym = match get_referred_symbols(context, src_ptr) {
-            ReferredSymbols::Complete(syms) if syms.len() == 1 => syms.into_iter().next().unwrap(),
-            _ => continue,
-        };
-
-        if dst_sym == src_sym {
+        if memory_utils::must_alias(context, dst_ptr, byte_len, src_ptr, byte_len) {
             to_delete.insert(inst);
         }
     }
